@@ -1181,6 +1181,8 @@ class Exec:
             m = z3.Int(fresh_name("nzm"))
             fet = src.et
             st.pc += tables.fact_filter_nonzero(src.comps[0], src.ln, farr, m)
+            if hasattr(self, "flush_pending"):
+                self.flush_pending(st)
             q = z3.Int("q%nzt")
             if fet.lo is not None and fet.hi is not None:
                 st.pc.append(z3.ForAll([q], z3.And(farr[q] >= fet.lo, farr[q] <= fet.hi)))
@@ -1193,6 +1195,8 @@ class Exec:
         self.binder_marks.pop()
         self.close_binder(st, mark, [j], rng)
         st.env = saved_env
+        if hasattr(self, "flush_pending"):
+            self.flush_pending(st)
         comps = [z3.Lambda([j], t) for t in terms]
         return VSeq(comps, n, et, "list")
 
